@@ -7,6 +7,7 @@ import (
 	"fmt"
 	"reflect"
 	"strings"
+	"sync"
 
 	"github.com/TheManticoreProject/Manticore/network/smb/smb_v10/message"
 	"github.com/TheManticoreProject/Manticore/network/smb/smb_v10/message/commands/codes"
@@ -22,6 +23,8 @@ import (
 var r *mon.Run
 
 var held = mon.NewHeldRing(96)
+
+var liveMsg = message.NewMessage()
 
 // refHeader is the independent MS-CIFS 2.2.3.1 layout.
 type refHeader struct {
@@ -289,6 +292,20 @@ func dispatch(reqT, respT [256]string) {
 				m := message.NewMessage()
 				var err error
 				p, pv, st := mon.Guard(func() { err = m.Unmarshal(wire) })
+				// the same bytes decoded into a long-lived Message that has decoded other codes
+				// and the opposite direction before must designate the same type
+				if !p && want != "" && err == nil {
+					var err2 error
+					p2, _, _ := mon.Guard(func() { err2 = liveMsg.Unmarshal(wire) })
+					r.Eval(1)
+					if p2 || err2 != nil || liveMsg.Command == nil || reflect.TypeOf(liveMsg.Command).Elem().Name() != want {
+						got := "<nil>"
+						if liveMsg.Command != nil {
+							got = reflect.TypeOf(liveMsg.Command).Elem().Name()
+						}
+						r.Violation(fmt.Sprintf("dispatch:%02x:%s:reused-message", code, suffix), fmt.Sprintf("a Message object that decoded other messages before yields %s (err %v) where the header designates %s", got, err2, want), map[string]any{"code": code, "response": resp, "wire": mon.FullHex(wire)})
+					}
+				}
 				r.Eval(1)
 				cs := map[string]any{"code": code, "response": resp, "wire": mon.FullHex(wire)}
 				key := fmt.Sprintf("dispatch:%02x:%s", code, suffix)
@@ -361,8 +378,7 @@ func framing(structs []smbgen.Struct) {
 				continue
 			}
 			if err != nil {
-				// encoding failures of a structure are C04's subject; not judged here
-				r.Count("marshal_refused", 1)
+				r.Violation(s.Name+":message.Marshal:error", "a message carrying an internally consistent "+s.Name+" cannot be encoded: "+err.Error(), cs)
 				continue
 			}
 			cs["wire"] = mon.FullHex(wire)
@@ -431,6 +447,51 @@ func framing(structs []smbgen.Struct) {
 	}
 }
 
+// concurrentCallers: unrelated headers and messages encoded on different goroutines must be
+// the bytes a single caller gets (no shared scratch buffers in the encoders).
+func concurrentCallers(structs []smbgen.Struct) {
+	var wg sync.WaitGroup
+	G := 8
+	per := r.Pick(3000, 40000)
+	for g := 0; g < G; g++ {
+		wg.Add(1)
+		go func(g int) {
+			defer wg.Done()
+			rng := r.Rand(fmt.Sprintf("concurrent|%d", g))
+			for i := 0; i < per; i++ {
+				var h refHeader
+				h.Command, h.Status, h.Flags, h.Flags2, h.PIDHigh = uint8(rng.Uint32()), rng.Uint32(), uint8(rng.Uint32()), uint16(rng.Uint32()), uint16(rng.Uint32())
+				binary.LittleEndian.PutUint64(h.Sec[:], rng.Uint64())
+				h.Reserved, h.TID, h.PIDLow, h.UID, h.MID = uint16(rng.Uint32()), uint16(rng.Uint32()), uint16(rng.Uint32()), uint16(rng.Uint32()), uint16(rng.Uint32())
+				lh := libHeader(h, i%3)
+				got, err := lh.Marshal()
+				r.Eval(1)
+				if err != nil || !bytes.Equal(got, h.encode()) {
+					r.Violation("header.Marshal:concurrent", fmt.Sprintf("with other goroutines encoding other headers: got %x want %x", got, h.encode()), map[string]any{"fields": fmt.Sprintf("%+v", h)})
+				}
+				if i%8 == 0 {
+					s := structs[(i/8+g*7)%len(structs)]
+					rels := smbgen.Relations(s.Name)
+					seedName := fmt.Sprintf("concurrent|%d|%d", g, i)
+					c1, c2 := s.New(), s.New()
+					smbgen.Fill(c1, rels, r.Rand(seedName), smbgen.ModeRandom, 60)
+					smbgen.Fill(c2, rels, r.Rand(seedName), smbgen.ModeRandom, 60)
+					var w1, w2 []byte
+					var e1, e2 error
+					mon.Guard(func() { w1, e1 = c1.Marshal() })
+					mon.Guard(func() { w2, e2 = c2.Marshal() })
+					r.Eval(2)
+					if (e1 == nil) != (e2 == nil) || !bytes.Equal(w1, w2) {
+						r.Violation(s.Name+":Marshal:concurrent", "two structures with identical field values encode differently while other goroutines encode", map[string]any{"struct": s.Name})
+					}
+				}
+			}
+		}(g)
+	}
+	wg.Wait()
+	r.Count("concurrent_caller_goroutines", G)
+}
+
 func main() {
 	r = mon.Start("C03", "exploration")
 	r.Rule("Headers: boundary values per field, all 256 flag bytes, seeded random, x3 SecurityFeatures variants, against an independent MS-CIFS 2.2.3.1 codec. Dispatch: all 256 command codes x reply flag (exhaustive), 3 flag backgrounds. Framing: every structure x value classes x buffer-size classes; equation len=32+1+2wc+2+bc; Marshal repeated 5 times. Non-trivial/distinct: distinct header wire images; (code, reply) pairs that dispatch to a structure; (structure, wc, bc/16) frames.")
@@ -439,6 +500,7 @@ func main() {
 	headers()
 	dispatch(reqT, respT)
 	framing(structs)
+	concurrentCallers(structs)
 	r.SetExhaustive(false)
 	r.Finish()
 }
